@@ -482,6 +482,16 @@ func cmdCheck(args []string) int {
 				confirmed = true
 			} else if r := results[label]; r == nil {
 				why = "replay-missing " + oneLine(replayErr[h.Meta.PkgDir])
+			} else if v.ID == "data-race" {
+				confirmed = r.Race
+				if !confirmed {
+					// a candidate the Go race detector does not confirm is dropped: the
+					// engine's happens-before model may lack an edge
+					vj, _ := json.Marshal(map[string]interface{}{"assert": v.ID, "msg": v.Msg, "confirmed_natively": false, "dropped": "race candidate not confirmed by the Go race detector"})
+					o.Violations = append(o.Violations, vj)
+					continue
+				}
+				why = "confirmed by the Go race detector"
 			} else if v.ID == "terminates" {
 				confirmed = r.TimedOut
 				why = fmt.Sprintf("native run came back: done=%v panic=%q failed=%v (the unwinding bound was too small, or the engine loops where the real code does not)", r.Done, r.Panic, r.Failed)
@@ -749,6 +759,7 @@ type replayResult struct {
 	Reached  []string `json:"reached"`
 	Done     bool     `json:"done"`
 	TimedOut bool     `json:"timed_out"`
+	Race     bool     `json:"race"`
 }
 
 // runNativeReplay runs the cases in one test binary; when a case kills the
@@ -790,6 +801,23 @@ func runNativeReplay(prop, dir string, cases []replayCase, overlay map[string][]
 	if out, err := build.CombinedOutput(); err != nil {
 		return nil, fmt.Errorf("go test -c failed: %v: %s", err, oneLine(string(out)))
 	}
+	// race candidates are confirmed with a -race build of the same test binary
+	raceBin := ""
+	for _, c := range cases {
+		if strings.Contains(c.Label, ":data-race:") {
+			raceBin = filepath.Join(wd, "replay_race.test")
+			break
+		}
+	}
+	if raceBin != "" {
+		rb := exec.Command("go", "test", "-c", "-race", "-tags", "verif", "-vet=off", "-overlay", ovPath, "-o", raceBin, "./"+dir)
+		rb.Dir = repoDir
+		rb.Env = env
+		if out, err := rb.CombinedOutput(); err != nil {
+			fmt.Fprintf(os.Stderr, "warning: -race build failed (race candidates stay unconfirmed): %v: %s\n", err, oneLine(string(out)))
+			raceBin = ""
+		}
+	}
 	res := make([]*replayResult, len(cases))
 	sem := make(chan struct{}, 8)
 	done := make(chan struct{})
@@ -809,13 +837,29 @@ func runNativeReplay(prop, dir string, cases []replayCase, overlay map[string][]
 			}
 			cctx, cancel := context.WithTimeout(context.Background(), deadline)
 			defer cancel()
-			cmd := exec.CommandContext(cctx, bin, "-test.run", "^TestVerifReplay$", "-test.v", "-test.timeout", "5m")
+			isRace := strings.Contains(c.Label, ":data-race:")
+			useBin := bin
+			if isRace {
+				if raceBin == "" {
+					res[ci] = &replayResult{Harness: c.Harness, Label: c.Label}
+					return
+				}
+				useBin = raceBin
+			}
+			cmd := exec.CommandContext(cctx, useBin, "-test.run", "^TestVerifReplay$", "-test.v", "-test.timeout", "5m")
 			cmd.Dir = filepath.Join(repoDir, dir)
 			cmd.Env = append(append([]string(nil), env...), "VERIF_REPLAY="+casePath)
+			if isRace {
+				cmd.Env = append(cmd.Env, "GORACE=halt_on_error=1")
+			}
 			var outb bytes.Buffer
 			cmd.Stdout = &outb
 			cmd.Stderr = &outb
 			runErr := cmd.Run()
+			if isRace {
+				res[ci] = &replayResult{Harness: c.Harness, Label: c.Label, Race: strings.Contains(outb.String(), "WARNING: DATA RACE")}
+				return
+			}
 			if cctx.Err() == context.DeadlineExceeded && strings.Contains(c.Label, ":terminates:") {
 				res[ci] = &replayResult{Harness: c.Harness, Label: c.Label, TimedOut: true}
 				return
